@@ -92,11 +92,10 @@ def native(scr):
 def run(run, scr, tier, seed, only=None):
     run.assumptions += TRUSTED + ['quick tier: key structs are covered compositionally (skeleton: every field reaches a zeroising call; leaves: each field type is erased for every content); the monolithic PrivateKey<1,1>/PublicKey<1,1> harnesses run in the thorough tier',
                                   'real (K,L) differ from <1,1> only in array lengths of the same generic code']
-    names = ['c16_drop_r', 'c16_drop_t', 'c16_zeroize_bytes', 'c16_zeroize_vec_t']
+    names = ['c16_drop_r', 'c16_drop_t', 'c16_zeroize_bytes', 'c16_zeroize_vec_t', 'c16_drop_pk_11']   # pk_11 measured 156 s
     hs = [Harness('verif_kani::c16::' + n, 'C16', timeout=900, bounds='every content of the object; read-back index symbolic') for n in names]
     if tier == 'thorough':
-        hs += [Harness('verif_kani::c16::c16_drop_sk_11', 'C16', timeout=3600, mem_gb=16, bounds='PrivateKey<1,1>, every byte symbolic, typed read-back at symbolic indices'),
-               Harness('verif_kani::c16::c16_drop_pk_11', 'C16', timeout=3600, mem_gb=16, bounds='PublicKey<1,1>, every byte symbolic')]
+        hs += [Harness('verif_kani::c16::c16_drop_sk_11', 'C16', timeout=3600, mem_gb=16, bounds='PrivateKey<1,1>, every byte symbolic, typed read-back at symbolic indices (measured 1102 s)')]
     if only:
         hs = [h for h in hs if any(o in h.name for o in only)]
     problems = []
